@@ -10,6 +10,8 @@ Oracle (no expected values): if validate(S, D) returns D' then
 """
 from __future__ import annotations
 
+import copy
+
 from mc import observe as O
 from mc.props import espace
 from mc.spec import schema as S
@@ -80,6 +82,30 @@ def _clauses(cc, backend):
             out.append(("fixpoint", f"{backend}:{kind}:{tag}:{o3['outcome']}:{o3.get('reason')}:{o3.get('check')}", f"{o3}"))
         elif o3["snap"] != obs["result"]:
             out.append(("fixpoint", f"{backend}:{kind}:{tag}:changed", f"first={obs['result']} second={o3['snap']}"))
+    # (3) an unordered MultiIndex component: the order in which the data carries its (uniquely named) levels is immaterial --
+    # same outcome, and the same parsed object up to that order, as for the data with its levels in the schema's order
+    six, tix = spec.get("index") if kind == "frame" else None, cc["table"].get("index")
+    if (backend == "pandas" and six is not None and six.get("kind") == "multi" and six.get("ordered") is False
+            and tix is not None and tix.get("kind") == "multi"):
+        snames = [S.full(l)["name"] for l in six["levels"]]
+        tnames = [l.get("name") for l in tix["levels"]]
+        if None not in snames and len(set(snames)) == len(snames) and sorted(map(str, tnames)) == sorted(map(str, snames)) and tnames != snames:
+            t2 = copy.deepcopy(cc["table"])
+            t2["index"]["levels"] = [next(l for l in tix["levels"] if l.get("name") == nm) for nm in snames]
+            for lazy in (False, True):
+                a = O.validate_pandas(spec, cc["table"], lazy=lazy)
+                b = O.validate_pandas(spec, t2, lazy=lazy)
+                tag = "lazy" if lazy else "eager"
+                if a["outcome"] != b["outcome"]:
+                    out.append(("multiindex_level_order_immaterial", f"{tag}:{b['outcome']}(schema order)->{a['outcome']}:{a.get('reason')}", f"data order={tnames}: {a.get('msg') or a.get('error')}"))
+                elif a["outcome"] == "ok":
+                    ra = a["_result_obj"]
+                    try:
+                        same = T.snap_pandas(ra.reorder_levels(snames)) == b["result"]
+                    except Exception as e:  # noqa
+                        same = False
+                    if not same:
+                        out.append(("multiindex_level_order_immaterial", f"{tag}:parsed_object_differs", f"{a['result']} vs {b['result']}"))
     return out, "/".join(labels), changed
 
 
